@@ -178,6 +178,13 @@ pub fn apply_edit(v: &Value, e: &TreeEdit) -> Option<(Value, String)> {
                 // string -> number type change when it looks like one
                 *slot = s.parse::<i64>().map(Value::from).unwrap_or(Value::String(format!("{}0", s)));
                 what = format!("str-retype@{}", describe(&path));
+            } else if e.kind % 32 == 30 {
+                // string -> container holding it (as other implementations nest values where this one has text)
+                *slot = serde_json::json!({ "nested": s });
+                what = format!("str-to-object@{}", describe(&path));
+            } else if e.kind % 32 == 29 {
+                *slot = serde_json::json!([s]);
+                what = format!("str-to-array@{}", describe(&path));
             } else {
                 *slot = Value::String(edit_string(&s, e.kind, &e.arg));
                 what = format!("str-edit{}@{}", e.kind % 16, describe(&path));
@@ -201,11 +208,12 @@ pub fn apply_edit(v: &Value, e: &TreeEdit) -> Option<(Value, String)> {
         }
         SiteKind::Null => {
             let slot = get_mut(&mut out, &path)?;
-            *slot = match e.kind % 2 {
+            *slot = match e.kind % 3 {
                 0 => serde_json::json!({}),
-                _ => serde_json::json!({"k": "v"}),
+                1 => serde_json::json!({"k": "v"}),
+                _ => serde_json::json!({"variables": {"PATH": "/bin"}, "workdir": "/w"}),
             };
-            what = format!("null-edit{}@{}", e.kind % 2, describe(&path));
+            what = format!("null-edit{}@{}", e.kind % 3, describe(&path));
         }
         SiteKind::Bool => {
             let slot = get_mut(&mut out, &path)?;
